@@ -247,6 +247,50 @@ def _run_hypothesis(check, tier: str, seed: int, payload: dict, acc: Acc) -> Non
     prop()
 
 
+def run_atheris(target: str, runs: int, seed: int, corpus: str | None, max_len: int, timeout: float = 3000):
+    """runs fuzz/<target> (atheris / libFuzzer) in a subprocess with a fresh corpus directory.
+    -> (executions done, [violating inputs as bytes], note)"""
+    import re
+    import shutil
+    import subprocess
+    import tempfile
+
+    from . import driver
+
+    script = os.path.join(VERIF_ROOT, "fuzz", target)
+    tmp = tempfile.mkdtemp(prefix="a816fuzz_")
+    try:
+        cdir = os.path.join(tmp, "corpus")
+        os.makedirs(cdir)
+        if corpus:
+            for fn in os.listdir(corpus):
+                shutil.copy(os.path.join(corpus, fn), cdir)
+        outf = os.path.join(tmp, "violations.txt")
+        env = dict(os.environ, FUZZ_OUT=outf, PYTHONDONTWRITEBYTECODE="1", PYTHONHASHSEED="0")
+        deps = os.path.join(VERIF_ROOT, ".deps")
+        env["PYTHONPATH"] = deps + os.pathsep + env.get("PYTHONPATH", "")
+        try:
+            p = subprocess.run([driver.PYTHON, script, f"-runs={runs}", f"-seed={seed}", f"-max_len={max_len}", "-print_final_stats=1", cdir],
+                               cwd=tmp, env=env, capture_output=True, timeout=timeout)
+            text = (p.stdout + p.stderr).decode("utf-8", "replace")
+        except subprocess.TimeoutExpired as e:
+            text = ((e.stdout or b"") + (e.stderr or b"")).decode("utf-8", "replace") + "\nTIMEOUT"
+        if "No module named 'atheris'" in text or "ModuleNotFoundError" in text and "atheris" in text:
+            return 0, [], "atheris unavailable"
+        m = re.search(r"number_of_executed_units:\s*(\d+)", text) or re.search(r"Done (\d+) runs", text)
+        done = int(m.group(1)) if m else 0
+        if not m:
+            m2 = re.findall(r"#(\d+)\s", text)
+            done = int(m2[-1]) if m2 else 0
+        bad = []
+        if os.path.exists(outf):
+            with open(outf) as f:
+                bad = [bytes.fromhex(ln.strip()) for ln in f if ln.strip()]
+        return done, bad, ("timeout" if "TIMEOUT" in text else "")
+    finally:
+        shutil.rmtree(tmp, ignore_errors=True)
+
+
 # ---------------------------------------------------------------------------------------------
 # shrinking (structural delta debugging over JSON cases)
 
